@@ -101,6 +101,8 @@ C02_Q = [
       ["comment terminator split as --|>", "comment terminator split as -|->", "cdata terminator split as ]|]>", "doctype end in second piece"], cost=6),
     H("h2_text_n4", "one XmlSource helper (read_text) on a BufRead delivering <=4 symbolic bytes in 2 pieces (cut symbolic) vs the same helper of the slice source on the same bytes (hooks verif_source)", [], cost=6),
     H("h2_elem_n4", "one XmlSource helper (read_with(ElementParser)) on a BufRead delivering <=4 symbolic bytes in 2 pieces (cut symbolic) vs the same helper of the slice source on the same bytes (hooks verif_source)", [], cost=6),
+    H("h2_elem_n3k2", "one XmlSource helper (read_with(ElementParser)) on a BufRead delivering <=3 symbolic bytes in 3 pieces (two cuts) (cut symbolic) vs the same helper of the slice source on the same bytes (hooks verif_source)", [], cost=6),
+    H("h2_text_n3k2", "one XmlSource helper (read_text) on a BufRead delivering <=3 symbolic bytes in 3 pieces (two cuts) (cut symbolic) vs the same helper of the slice source on the same bytes (hooks verif_source)", [], cost=6),
     H("h2_pi_n4", "one XmlSource helper (read_with(PiParser)) on a BufRead delivering <=4 symbolic bytes in 2 pieces (cut symbolic) vs the same helper of the slice source on the same bytes (hooks verif_source)", [], cost=6),
     H("h2_skipws_n4", "one XmlSource helper (skip_whitespace) on a BufRead delivering <=4 symbolic bytes in 2 pieces (cut symbolic) vs the same helper of the slice source on the same bytes (hooks verif_source)", [], cost=6),
     H("h2_peek_n4", "one XmlSource helper (peek_one) on a BufRead delivering <=4 symbolic bytes in 2 pieces (cut symbolic) vs the same helper of the slice source on the same bytes (hooks verif_source)", [], cost=6),
@@ -181,7 +183,7 @@ C10_T = [
 ATTR = "one Attributes::next() from an arbitrary iterator state (hook verif_with_state; <=2 recorded keys), XML/HTML mode and duplicate checking symbolic, ASCII tag content "
 C11_Q = [
     H("a11_next_n5", ATTR + "<=5 bytes, state Next(o)", ["attribute with value", "duplicate reported"], cost=6),
-    H("a11_skipvalue_canon_n6", ATTR + "<=6 bytes, state SkipValue(o) of the canonical family `k = v...` (XML mode) that is reachable by construction", ["attribute after a skipped unquoted value"], cost=7),
+    H("a11_skipvalue_canon_n6", ATTR + "<=6 bytes, state SkipValue(o) of the canonical family `k = v...` (XML mode) that is reachable by construction", ["another item after a skipped unquoted value"], cost=7),
     H("a11_skipeq_canon_n8", ATTR + "<=8 bytes, state SkipEqValue(o) of the canonical family `K K =...` (HTML mode, checks on) that is reachable by construction", ["attribute after a skipped duplicate"], cost=8),
     H("a11_done_n3", ATTR + "<=3 bytes, state Done", [], cost=1),
 ]
